@@ -81,6 +81,10 @@ typedef struct gev {
 const gev_t* g_evlog(int* n);
 int g_ready_count(void);  // fibers with a pending wake right now
 
+// mark the execution non-trivial on behalf of sub-harness 'name' (only counts when it is the case's harness)
+void rt_nontrivial(const char* name);
+long g_steals(void);
+long g_early_wakes(void);
 // instrumented side entry
 void rt_main(void* arg);
 #endif
